@@ -254,9 +254,11 @@ class PyEval(MiniEval):
                     except IndexError:
                         raise Raised("index out of range", "IndexError") from None
             raise Unsupported(f"subscript of {v!r}")
-        if isinstance(e, (ast.ListComp, ast.GeneratorExp)) and len(e.generators) == 1:
+        if isinstance(e, (ast.ListComp, ast.GeneratorExp, ast.DictComp, ast.SetComp)) and len(e.generators) == 1:
             g = e.generators[0]
             it = self.ev(g.iter, env)
+            if isinstance(it, dict):
+                it = list(it)  # insertion order, as in Python
             if not isinstance(it, (list, tuple)):
                 raise Unsupported(f"comprehension over {it!r}")
             out = []
@@ -264,8 +266,10 @@ class PyEval(MiniEval):
                 env2 = dict(env)
                 self.assign(g.target, item, env2)
                 if all(self.truth(self.ev(c, env2)) for c in g.ifs):
-                    out.append(self.ev(e.elt, env2))
-            return out
+                    out.append((self.ev(e.key, env2), self.ev(e.value, env2)) if isinstance(e, ast.DictComp) else self.ev(e.elt, env2))
+            if isinstance(e, ast.DictComp):
+                return dict(out)
+            return set(out) if isinstance(e, ast.SetComp) else out
         return super().ev(e, env)
 
     def assign(self, target: ast.expr, value: Any, env: dict) -> None:
@@ -335,6 +339,16 @@ class PyEval(MiniEval):
                         if r[0] != "fall":
                             return r
                         break
+                continue
+            if isinstance(st, ast.Delete) and all(isinstance(t, ast.Subscript) for t in st.targets):
+                for t in st.targets:
+                    base = self.ev(t.value, env)
+                    k = self.ev(t.slice, env)
+                    if not isinstance(base, dict):
+                        raise Unsupported(f"del on {base!r}")
+                    if k not in base:
+                        raise Raised(f"KeyError {k!r}", "KeyError")
+                    del base[k]
                 continue
             if isinstance(st, ast.Raise):
                 cls = ""
